@@ -82,7 +82,34 @@ class Family:
                 "%r.then(%s) handed back %r : %r -> %r" % (
                     recv, ", ".join(map(repr, args)), out, out.dom, out.cod)))
 
+    # Object identity.  By default every box spec is turned into a FRESH Box object, so no object
+    # ever occurs twice in a diagram.  With `intern` set to a dict the same spec is handed out as the
+    # very SAME Python object again (with probability `intern_p`, drawn from `intern_rng`; otherwise
+    # an equal-but-distinct copy is built), so that diagrams like `f >> f` with one object `f` — what
+    # a user who names a box and uses it twice writes — are generated.
+    intern = None
+    intern_p = 1.0
+    intern_rng = None
+
+    def shared(self, rng, p=1.0):
+        """A family like this one that interns its boxes (fresh table)."""
+        fam = Family(self.name)
+        fam.intern, fam.intern_p, fam.intern_rng = {}, p, rng
+        fam.watch, fam.problems = self.watch, self.problems
+        return fam
+
     def box(self, b):
+        if self.intern is None:
+            return self._box(b)
+        key = repr(sorted(b.items(), key=lambda kv: kv[0]))
+        old = self.intern.get(key)
+        if old is not None and (self.intern_p >= 1.0 or self.intern_rng.random() < self.intern_p):
+            return old
+        new = self._box(b)
+        self.intern.setdefault(key, new)
+        return new
+
+    def _box(self, b):
         m = self.m
         if b["kind"] == "g":
             kw = {}
